@@ -342,6 +342,68 @@ def check_call_records(chk, o, m, i, want, rec, cfg, tower, supplied, sc):
     return False
 
 
+# (given value, falsy value) per optional key; None = the key has no falsy value that is legitimate input
+KEY_VALUES = {
+    "domain.modes": ([64, 32], None), "domain.halo": (35.0, 0.0), "domain.ref_lat": (47.5, 0.0), "domain.ref_lon": (8.25, 0.0),
+    "domain.output_levels": ([1, 2], None), "domain.full_output": (True, False),
+    "met.ustar": (0.42, None), "met.mol": (-75.0, None), "met.wind_speed": (6.5, 0.0), "met.wind_dir": (123.0, 0.0),
+    "met.z0": (0.03, None), "met.timestamps": (["2024-01-01T00:00"], None),
+    "solver.closure": ("MOSTM", None), "solver.precision": ("double", None), "solver.footprint": (True, False),
+    "solver.surface_flux_shape": ("circle", None), "solver.analytic": (True, False), "solver.src_loc": ([10.0, 20.0], None),
+    "output.format": ("csv", None), "output.directory": ("/tmp/somewhere", None),
+    "parallel.num_threads": (3, 0), "parallel.max_workers": (5, 0), "parallel.use_cache": (True, False),
+}
+
+
+def defaults_scenarios(chk):
+    """C13 (defaults): TLC enumerates presence patterns of every optional key; parse_config_dict must keep what is given
+    (also values Python treats as false) and fill in the documented default for what is absent"""
+    from bldfm.config_parser import parse_config_dict
+
+    r = run_tlc("Config", "MC_Defaults", workers=4, env={"EMIT_EVERY": "1", "EMIT_PHASE": "0"})
+    chk.add_tlc("MC_Defaults", r)
+    if not r.ok:
+        raise MachineryError("MC_Defaults: %s violated" % r.violated)
+    n = 0
+    for e in r.emitted:
+        sc = e["sc"]
+        raw = {"domain": {"nx": 8, "ny": 6, "xmax": 160.0, "ymax": 90.0, "nz": 4}, "towers": [{"name": "T", "lat": 47.5001, "lon": 8.2502, "z_m": 9.0}], "met": {}}
+        given = {}
+        for k in sorted(KEY_VALUES):
+            form = sc["form"] if k == sc["key"] else sc["others"]
+            if form == "absent":
+                continue
+            val, falsy = KEY_VALUES[k]
+            v = falsy if (form == "falsy" and falsy is not None) else val
+            sec, key = k.split(".")
+            raw.setdefault(sec, {})[key] = v
+            given[k] = v
+        if "met.ustar" not in given and "met.z0" not in given:
+            raw["met"]["ustar"] = 0.3      # a forcing needs one of the two; the key under test is then compared as given
+            given["met.ustar"] = 0.3
+        try:
+            cfg = parse_config_dict(copy.deepcopy(raw))
+        except Exception as ex:
+            chk.violation("parse_config_dict raised %r for %s" % (ex, raw), {"kind": "defaults", "sc": sc, "raw": raw}, klass={"check": "defaults_exception"})
+            continue
+        n += 1
+        chk.case(json.dumps(sc, sort_keys=True))
+        for k, exp in e["expect"].items():
+            sec, key = k.split(".")
+            got = getattr(getattr(cfg, sec), key)
+            if k in given:
+                want = given[k]
+                ok = (tuple(got) == tuple(want)) if isinstance(want, list) else (got == want and type(got) == type(want))
+                if not ok:
+                    chk.violation("configuration key %s was given as %r but parsed as %r" % (k, want, got), {"kind": "defaults", "sc": sc, "raw": raw, "key": k}, klass={"check": "given_not_kept", "key": k})
+                    break
+            else:
+                if repr(got) != exp[1]:
+                    chk.violation("absent configuration key %s parsed as %r, the documented default is %s" % (k, got, exp[1]), {"kind": "defaults", "sc": sc, "raw": raw, "key": k}, klass={"check": "default_value", "key": k})
+                    break
+    chk.extra["default_scenarios"] = n
+
+
 def main_single():
     import bldfm
     import bldfm.interface as iface
@@ -410,6 +472,7 @@ def main_single():
             w["ts"] = list(w["ts"])
             if got != w:
                 chk.violation("result params %s, the specification says %s" % (got, w), sc, klass={"check": "params"})
+    defaults_scenarios(chk)
     chk.extra["lattice_points_replayed"] = len(r.emitted)
     for e in r.emitted[:3]:
         chk.sample({"options": e["o"], "forcing": met_dict(e["m"]), "first_call_record": e["log"][0] if e["log"] else None})
